@@ -17,7 +17,7 @@ from saml2_tophat import samlp, BINDING_HTTP_POST, BINDING_SOAP, BINDING_HTTP_RE
 
 CLAIM = {
     "text": "Coq theorems (Props/C06.v) over the model of status_ok/_verify/verify and the None->error tail of _parse_response: a present non-Success top-level status or a Version other than 2.0 can never yield an accepted response, for every assertion content/signature state (the assertion stage is universally quantified) and every request-id/destination/time situation; when the earlier checks pass the error is exactly the documented class, with today's STATUSCODE2EXCEPTION regenerated from source and proved equal to the hand-written documented table. The model compares codes by exact string equality, and it is proved that a top-level value other than the literal specification URN of Success - every proper substring or superstring, every string of another length, every member of a Gallina-generated near-miss set (one character dropped/inserted/replaced/case-changed, proper prefixes and suffixes incl. the empty string, white space around; proved different from the original for ANY string by induction) - is not Success and is never accepted; a second-level code outside the documented 21 gets the generic error, and no generated near-miss of a documented code is documented. Tie to the code: exhaustive cross product of the property's quantifier through the real SP entry points vs the model on every run, plus ~275 textual near-misses of the Success URN (literal spec strings) x second-level kinds x POST/SOAP with a valid signed assertion, the same through logout responses, the 21 second-level URNs as literal spec strings (exact documented class) and ~60 near-misses of each (refused, never a specific class).",
-    "note": "Trusted: Coq kernel + vm_compute; the model is hand-written and tied to the code by the exhaustive correspondence table (POST and SOAP, authn/logout responses, authn requests); float() of Version strings is an oracle input; stand-in xmlsec1 for the signed-assertion cells; reflection translator for the status table. For near-miss top-level codes only accepted/refused is compared (the class is unspecified there; Value="" / no Value are refused by the schema check before status_ok). A response lacking <Status> altogether is outside the quantifier and is accepted by the code (modelled, reported as an observation).",
+    "note": "Trusted: Coq kernel + vm_compute; the model is hand-written and tied to the code by the exhaustive correspondence table (POST and SOAP, authn/logout responses, authn requests); float() of Version strings is an oracle input; stand-in xmlsec1 for the signed-assertion cells; reflection translator for the status table. For near-miss top-level codes only accepted/refused is compared (the class is unspecified there; Value="" / no Value are refused by the schema check before status_ok). A response lacking <Status> altogether was accepted by the library until the repair in /repo (fix: a response without Status is refused); the model carries both states (status_ok / status_ok_before_fix), C06_identity_only_from_success_2_0 states the title at full strength, and the oracle key accepted-without-status demands refusal.",
     "technique": "machine-checked proof (Coq) + regenerated-table obligation + exhaustive model/implementation correspondence",
 }
 TRUSTED = [
@@ -27,7 +27,7 @@ TRUSTED = [
     "stand-in xmlsec1 (harness/tools/xmlsec_core.py) signs/verifies the 'valid signed assertion' cells",
     "near-miss cells: the <Status> element of a built response (assertion signed, response not) is replaced textually by literal XML; the XML parser's attribute handling is part of the real run, the model receives the intended string",
 ]
-ASSUMPTIONS = ["a response with no <Status> element at all is outside the property's quantifier (top-level status codes); the model carries it (C06_absent_status_passes) and the harness runs it without alarming"]
+ASSUMPTIONS = ["the assertion stage is an abstract parameter `rest` of the theorems (any value): what it does is the subject of C01-C05/C17"]
 RULE = ("exhaustive cross product of the property's quantifier, every cell run through Saml2Client.parse_authn_request_response "
         "and through the model; a cell is non-trivial when the status is not Success or the version is not 2.0 (distinct by cell coordinates); "
         "near-miss cells: the full literal near-miss list (harness/c06_near.py) x second-level kind x binding with a signed assertion, "
@@ -108,13 +108,16 @@ def run(ctx):
             cases.append(dict(id=n, coq="(%s, %s)" % (vi, rest), impl=impl,
                               show={k: c[k] for k in ("top", "sec", "msg", "has_a", "ver", "bind")}))
             nonsucc = c["status"] is not None and c["top"] != samlp.STATUS_SUCCESS
-            if nonsucc or c["ver"] != "2.0":
+            if nonsucc or c["ver"] != "2.0" or c["status"] is None:
                 ctx.nontriv((c["top"], c["sec"], c["msg"], c["has_a"], c["ver"], c["bind"], str(c["status"])))
             ctx.count("outcome:" + (impl.name if isinstance(impl, Exn) else str(impl)))
             # implementation-level oracle: the property itself
             if nonsucc and impl is True:
                 ctx.oracle_fail("accepted-nonsuccess:%s:%s:%s:%s" % (c["top"], c["sec"], c["ver"], c["bind"]),
                                 "response with top-level status %s accepted" % c["top"], dict(c, xml=xml))
+            if c["status"] is None and impl is True:
+                ctx.oracle_fail("accepted-without-status:%s:%s" % ("assertion" if c["has_a"] else "no-assertion", c["bind"]),
+                                "response without any <Status> element accepted", dict(c, xml=xml))
             if c["ver"] != "2.0" and impl is True:
                 ctx.oracle_fail("accepted-version:%s:%s" % (c["ver"], c["bind"]),
                                 "response with Version %r accepted" % c["ver"], dict(c, xml=xml))
@@ -164,10 +167,10 @@ def run_logout(ctx, sp):
     tops = [samlp.STATUS_SUCCESS, samlp.STATUS_REQUESTER, samlp.STATUS_PARTIAL_LOGOUT, UNKNOWN]
     seconds = [None, UNKNOWN, samlp.STATUS_PARTIAL_LOGOUT, samlp.STATUS_UNKNOWN_PRINCIPAL]
     with env.Clock(env.NOW):
-        for top, sec, ver in itertools.product(tops, seconds, ["2.0", "1.1", "3.0", "x", "2.00"]):
-            st = {"code": top, "sub": sec, "message": None}
+        for top, sec, ver in list(itertools.product(tops, seconds, ["2.0", "1.1", "3.0", "x", "2.00"])) + [(None, None, "2.0"), (None, None, "1.1")]:
+            st = {"code": top, "sub": sec, "message": None} if top is not None else None     # None: no <Status> element at all
             r = samlp.LogoutResponse(id="lr-1", in_response_to="req-1", version=ver, issue_instant=env.ts(env.NOW),
-                                     issuer=saml.Issuer(text=env.IDP_ID), status=resp._status(st))
+                                     issuer=saml.Issuer(text=env.IDP_ID), status=resp._status(st) if st is not None else None)
             got = call(sp.parse_logout_request_response, SOAP_ENV % str(r), BINDING_SOAP)
             impl = got if isinstance(got, Exn) or got is None else True
             vi = ("{| id_mismatch := false; version := Some %s; ver_lt2 := %s; asynchop := false; dest_ok := true; "
